@@ -4,7 +4,7 @@ from pyvc.spec import contract, specfn, lemma
 U = 'fast_ticc.admm.unique_values.'
 
 # row-major rank of (r, c), r <= c, in the upper triangle of an n x n matrix
-specfn('tri_rank', "lambda r, c, n: r*n - (r*(r+1))//2 + c")
+specfn('tri_rank', "lambda r, c, n: r*n - (r*(r+1))//2 + c", sig=(['int', 'int', 'int'], 'int'), uf=True)
 
 contract(U + '_size_including_this_row', props=['C11'],
          params=dict(r='int', uncompressed_size='int'), returns='real',
